@@ -285,6 +285,9 @@ func (t *v2T) match(c *v2C, data []byte, o v2MatchOpts) *v2Res {
 		"thr": rk[c.thr], "one": rk[1.0], "total": r.TotalInputLines, "ms": ms,
 		"unchanged": bytes.Equal(cp, data), "docs": []int{d0, len(c.c.docs)}, "dict": []int{w0, len(c.c.dict.words)},
 		"memo": o.memo, "scored": o.scored, "lines": []int{}, "hash": v2Hash(data)}
+	if os.Getenv("VERIF_DUMP_INPUTS") != "" && len(data) < 30000 {
+		ev["input_b64"] = vuB64(data)
+	}
 	if o.scored {
 		ls := make([]int, len(wdoc.Tokens))
 		for i, tk := range wdoc.Tokens {
